@@ -83,6 +83,30 @@ def _perturb_probe(rng, sc):
 
 
 def run_case(spec, idx, ctx):
+    """Process-global state a user may have set must not change the claim: one case in 7 runs under another default dtype,
+    deterministic algorithms or another thread count (restored afterwards)."""
+    import torch
+
+    gs = [None, "default_float64", "deterministic_algorithms", "two_threads"][(idx // 7) % 4] if idx % 7 == 5 else None
+    if gs is None:
+        return _run_case(spec, idx, ctx)
+    old = (torch.get_default_dtype(), torch.are_deterministic_algorithms_enabled(), torch.get_num_threads())
+    try:
+        if gs == "default_float64":
+            torch.set_default_dtype(torch.float64)
+        elif gs == "deterministic_algorithms":
+            torch.use_deterministic_algorithms(True)
+        else:
+            torch.set_num_threads(2)
+        ctx.count("global_state:" + gs)
+        return _run_case(spec, idx, ctx, global_state=gs)
+    finally:
+        torch.set_default_dtype(old[0])
+        torch.use_deterministic_algorithms(old[1])
+        torch.set_num_threads(old[2])
+
+
+def _run_case(spec, idx, ctx, global_state=None):
     import dataclasses
 
     import torch
@@ -91,6 +115,8 @@ def run_case(spec, idx, ctx):
     rng = ctx.rng(idx)
     kind = spec["kind"]
     common = {"kind": kind}
+    if global_state:
+        common["global_state"] = global_state
     kw = {}
     build = {}
     roll = (0, 0)
@@ -131,6 +157,8 @@ def run_case(spec, idx, ctx):
             build["learn_scan_positions"] = True  # (only used by the reset copy of the clone history below: no dataset optimizer is installed on the judged object)
     if idx % 3 == 2:
         build["probe_order"] = "permute"  # resolved once the number of modes is known
+    if idx % 7 == 4:
+        build["array_form"] = ["f32", "c64", "ro32", "strided"][(idx // 7) % 4]  # memory layout / dtype / ownership of the measured data
     if idx % 2 == 0 and kind != "nonorth":
         build["probe_from"] = "array"  # equivalent construction form: ProbePixelated.from_array instead of from_params + setter
     if kind.startswith("constant") and (idx // 9) % 2 == 0:
@@ -203,6 +231,16 @@ def run_case(spec, idx, ctx):
         return scenes.build_library(scene, I, detector_mask=mask, seed=int(rng.integers(1 << 30)), **build)
 
     pt = build_lib(sc)
+    if idx % 6 == 1:
+        # calls that are neutral for the forward pipeline, between construction and use
+        import contextlib, io, os
+
+        with contextlib.redirect_stdout(io.StringIO()):
+            pt.to("cpu")
+            repr(pt)
+            _ = (pt.obj_shape_full, pt.dset.num_gpts, pt.probe_model.probe.shape, pt.obj_model.obj.shape)
+            pt.save(os.path.join(ctx.tmp, "c02-neutral-%d.zip" % idx), mode="o")
+        ctx.count("neutral_calls_before_use")
     if build.get("dset_pre"):
         # state after an error: calls that raise (caught by the caller) must not change what the pipeline computes afterwards
         for bad in (dict(loss_type="no_such_loss"), dict(batch_size=0), dict(constraints={"no_such_model": {}})):
@@ -222,7 +260,7 @@ def run_case(spec, idx, ctx):
         if spec.get("_lib_shape"):
             raise HarnessError("object canvas %s != harness %s even after following the library" % (lib_shape, sc.obj_shape))
         ctx.count("geometry_fallback")
-        return run_case(dict(spec, _lib_shape=list(lib_shape), _lib_pad=[int(p) for p in pt.obj_padding_px]), idx, ctx)
+        return _run_case(dict(spec, _lib_shape=list(lib_shape), _lib_pad=[int(p) for p in pt.obj_padding_px]), idx, ctx, global_state=global_state)
     pt.dset.forward(np.arange(int(np.prod(sc.gpts))), pt.obj_padding_px)  # applies the dataset's hard constraints, as every iteration does
     pos = pt.dset.scan_positions_px.detach().cpu().numpy().astype(np.float64)
     ctx.close(np.abs(pos - sc.positions_px).max(), 2e-4, "scan_positions_mismatch", lambda: "library scan positions differ from index*step/sampling+padding", track="clipped(known finding)" if clip == "on" else None, **common)
